@@ -10,6 +10,6 @@ for d in seeded/*${1}*/; do
   echo "$n $(python3 -c "
 import json
 try:
-    r=json.load(open('$d/result.json')); print(r.get('suite_passes_with'), r.get('demo_fails_with'), {k:v['rc'] for k,v in r['checks'].items()})
+    r=json.load(open('$d/result.json')); print(r.get('suite_passes_with'), r.get('demo_fails_with'), {k:'%d/%d'%(v.get('caught',v['rc']),v.get('runs',1)) for k,v in r['checks'].items()})
 except Exception as e: print('ERR',e)")"
 done
